@@ -812,7 +812,9 @@ class NetConnections:
         inodes = {}
         for pid in pids():
             try:
-                inodes.update(self.get_proc_inodes(pid))
+                # a socket may be shared by many processes
+                for inode, pairs in self.get_proc_inodes(pid).items():
+                    inodes.setdefault(inode, []).extend(pairs)
             except (FileNotFoundError, ProcessLookupError, PermissionError):
                 # os.listdir() is gonna raise a lot of access denied
                 # exceptions in case of unprivileged user; that's fine
